@@ -311,6 +311,12 @@ def run():
     global INPUTS
     chk = Check("C16", level="exploration")
     mergedrv.quiet_logging()
+    # the user's git configuration asks for colour always (git then colours piped output too unless told --no-color):
+    # "no escape codes with colour disabled" has to hold under it as well
+    gitcfg = os.path.join(tlc.scratch(), "gitconfig-color-always")
+    with io.open(gitcfg, "w") as f:
+        f.write(u"[color]\n\tui = always\n\tdiff = always\n")
+    os.environ["GIT_CONFIG_GLOBAL"] = gitcfg
     terminal_runs(chk)
     INPUTS = build_inputs(chk, 16 if chk.quick else 120, 6 if chk.quick else 60)
     swept = render_sweep(chk, 20 if chk.quick else 200)
